@@ -36,4 +36,5 @@ def check(ctx):
                      'no escape, no leak. non-trivial = script has a value and something was read / delivered / collected',
                 assumptions=['Go channels, sync.Once, select and goroutine start modelled with textbook semantics (RoModel/Chan.lean header)',
                              'teardown over-approximated: enabled from the start, run by the thread that triggers it (sound for the invariants)'],
-                extra=dict(chanv=stats, park=park))
+                extra=dict(chanv=stats, park=park, transient_disagreements=ctx.__dict__.get('chan_transients', 0)),
+                search=CC.shape_search)
